@@ -342,6 +342,7 @@ def p1reader_obligations(eng):
         buf, ch = args; b = st.getf(buf, "_buffer")
         if not (isinstance(ch, SBytes) and st.ghost.get("chunk_is_stream_segment") is not None): raise Unsupported("extend outside read()")
         gt_before, gt_after = st.ghost["chunk_is_stream_segment"]
+        ctx.oblige(st, "pre:extend(the whole chunk is buffered: no octet of the stream is dropped or reordered)", z3.And(z3.BoolVal(ch.arr.eq(G)), ch.off == gt_before, ch.off + ch.n == gt_after), node)
         if z3.is_int_value(z3.simplify(b.n)) and z3.simplify(b.n).as_long() == 0: st.setf(buf, "_buffer", SBytes(G, ch.n, gt_before))
         else:
             ctx.oblige(st, "pre:extend(buffer view ends at the stream position)", z3.And(z3.BoolVal(b.arr.eq(G)), b.off + b.n == gt_before), node)
